@@ -61,10 +61,15 @@ FInOut == InputD("I2", <<ArgD("a", Named("A"))>>)
 FXIface == Ext(InterfaceD("N", <<FieldD("id", Named("ID"), <<>>)>>))
 FXUnion == Ext(UnionD("U", <<"E">>))
 
+\* a second directive and a further enum: what a refused load (a document, or types handed to AddTypes) has to take
+\* back when the failure comes after them - the table of directives is kept apart from the table of types
+DMark == DirectiveD("mark", <<ArgD("w", S)>>, <<"OBJECT", "ENUM">>)
+DE3 == EnumD("E3", <<EV("X")>>)
+
 GoodDocs ==
   { <<DQuery, DA, DB, DN>>, <<DU1, DE, DIn>>, <<DMut>>, <<DTag, DDate>>, <<XQuery>>, <<XA>>, <<XE, XU>>, <<XIn>>,
     <<DSchema>>, <<DSchemaQ>>, <<DE>>, <<DIn, DMut>>, <<DMut2>>, <<DSub>>, <<XQuery2, XE2>>,
-    <<XAImpl>>, <<DTop, DSchemaTop>>, <<DSub, XSchemaSub>>, <<XSchemaMut>>, <<XDateTag>> }
+    <<XAImpl>>, <<DTop, DSchemaTop>>, <<DSub, XSchemaSub>>, <<XSchemaMut>>, <<XDateTag>>, <<DMark, DE3>> }
 BadDocs ==
   { <<Syntax>>, <<XQuery, Syntax>>, <<DSchemaQ, Syntax>>, <<DE, ReadFault>>, <<XE, ReadFault, XU>>,
     <<XE, FXNotFound>>, <<XQuery, FEmpty>>, <<DSchemaQ, FUndef>>, <<FDup>>, <<XIn, FXDupField>>, <<XQuery, FXKind>>,
@@ -72,6 +77,7 @@ BadDocs ==
     \* an operation root type in a document refused only by the final validation; one type extended twice before the failure
     <<FXIface>>, <<DDate, FXIface>>, <<FXUnion>>,
     <<XDateTag, FEmpty>>, <<XETag, XUTag, FUndef>>, <<XInTag, XNTag, FEmpty>>, <<DSub, CloseFault>>, <<XQuery, XE, CloseFault>>,
+    <<DMark, FUndef>>, <<DMark, DE3, FEmpty>>, <<DE3, FDup>>, <<DMark, FDup>>,
     <<DMut2, FEmpty>>, <<DSub, FInOut>>, <<XQuery, XQuery2, FEmpty>>, <<XE, XE2, FXNotFound>>, <<XIn, XIn2, FXDupField>> }
 G1 == <<DQuery, DA, DB, DN>>
 G2 == <<DU1, DE, DIn>>
